@@ -98,7 +98,7 @@ Proof.
   unfold skippable_len. cbv zeta.
   match goal with |- (if ?b then _ else _) = _ -> _ => destruct b end; [|discriminate].
   destruct (8 + u32_of (skipn 4 l) <=? zlen l) eqn:E; [|discriminate].
-  intros H; injection H as <-. pose proof (u32_of_range (skipn 4 l)) as R. unfold two32 in R.
+  intros H. assert (Hn : n = 8 + u32_of (skipn 4 l)) by congruence. subst n. clear H. pose proof (u32_of_range (skipn 4 l)) as R. unfold two32 in R.
   apply Z.leb_le in E. lia.
 Qed.
 
@@ -109,5 +109,6 @@ Proof.
   destruct l as [|b t]; [unfold zlen in B; simpl in B; lia|].
   cbn [toy_ds]. rewrite H. rewrite zlen_cons in B.
   rewrite toy_ds_skip by (unfold zlen in B; lia).
-  unfold zskipn. replace (Z.to_nat n) with (S (Z.to_nat n - 1)) by lia. reflexivity.
+  unfold zskipn. remember (Z.to_nat n - 1)%nat as k eqn:Ek.
+  replace (Z.to_nat n) with (S k) by lia. reflexivity.
 Qed.
